@@ -14,7 +14,11 @@ for d in sorted(glob.glob("/verif/seeded/C*-*"), key=lambda p: (p.split("/")[-1]
         mm = re.search(r"MISSED[^;]*;\s*(.*?);\s*tools/seedtest", ran)
         stren = mm.group(1) if mm else ""
     needs = m["needs_to_manifest"].replace("|", "\\|")
-    rows.append("| %s | %s | %s | %s |" % (name, needs[:230], {"caught": "caught", "missed": "MISSED, then caught", "correspondence": "correspondence only, then input"}[first], stren.replace("|", "\\|")[:260]))
+    how = {"caught": "caught", "missed": "MISSED, then caught", "correspondence": "correspondence only, then input"}[first]
+    if m.get("neutralised_by"):
+        how += "; NEUTRALISED by /repo %s (no longer breaks the property, check quiet)" % m["neutralised_by"]
+        stren = stren.split(" || ")[0]
+    rows.append("| %s | %s | %s | %s |" % (name, needs[:230], how, stren.replace("|", "\\|")[:260]))
 print("| seed | needs in order to manifest | first run of ./check | strengthening made |")
 print("|---|---|---|---|")
 print("\n".join(rows))
